@@ -22,9 +22,9 @@ def for_property(pid):
 
 
 def reserved_identifiers(pid="C07"):
-    """identifier -> finding id"""
+    """identifier -> (finding id, roles in which the finding applies)"""
     out = {}
     for f in for_property(pid):
         for i in f.get("identifiers", []):
-            out[i] = f["id"]
+            out[i] = (f["id"], tuple(f.get("roles", ("name", "splitter", "condition"))))
     return out
